@@ -61,12 +61,12 @@ def run(ctx):
             ctx.finding("certverify:panic:%s" % s["id"], "panic: %s" % conns[(sc, k)]["cpanic"], {"scenario": s})
             continue
         first = "fresh" if len(s["conns"]) == 1 else ("second-after-permissive" if s["conns"][0]["skip_verify"] and k == 2 else "second-after-strict" if k == 2 else "first")
-        ctx.finding("certverify:%s:why=%s:%s:resumed=%s" % (what, why, first, resumed),
+        ctx.finding("certverify:%s:why=%s:%s:resumed=%s%s" % (what, why, first, resumed, ":after-setsni" if c.get("setsni") else ""),
                     "%s (TLS %#x, certificate %s, %s connection): %s; client error: %s" % (s["id"], s["ver"], s["cert"], first, what, conns[(sc, k)]["cerr"]),
                     {"scenario": s, "connection": k, "observed": {x: conns[(sc, k)][x] for x in ("cok", "cerr", "errtype", "resumed")}})
     # canary: claim a wrong-name certificate was accepted without any relaxation
     bad = next(g for g in groups if g[0]["cert"] == "wrongname" and len(g[0]["conns"]) == 1 and not g[0]["conns"][0]["skip_verify"]
-               and g[0]["conns"][0]["itv"] == "" and g[0]["conns"][0]["server_name"] == "example.com")
+               and g[0]["conns"][0]["itv"] == "" and g[0]["conns"][0]["server_name"] == "example.com" and not g[0]["conns"][0].get("setsni"))
     forged = json.loads(json.dumps(bad)); forged[1]["cok"] = True
     ctx.write_ndjson("certverify_trace.ndjson", forged)
     if not ctx.tlc("CertVerifyTrace", timeout=300, count=False).tagged("REJ"):
